@@ -9,7 +9,11 @@
 //! Oracle (independent of Coq): no panic anywhere; a reference split of the URL text (WHATWG
 //! authority rules) for the expected host; re-scan of the normalised URL; the `url` crate as second
 //! opinion; third-party from the definition; scheme flags; Request::new vs Request::preparsed
-//! (all fields, engine verdicts).
+//! (all fields, engine verdicts); an engine holding the single rule `||x^` for x = the host of the
+//! reference split and for every other host-like name of the authority text (credentials, text
+//! after a backslash) must match exactly when x is the host or a parent domain of it.
+//! Every fourth input is a backslash/'@' authority (`gen_bs_at_url`): all three case kinds and the
+//! whole oracle run on it.
 use adblock::request::{Request, RequestType};
 use adblock::url_parser::verif::{get_host_domain, scan};
 use adblock::utils::fast_hash;
@@ -226,6 +230,162 @@ fn gen_url(r: &mut Rng) -> GenUrl {
     GenUrl { s }
 }
 
+// ------------------------------------------------------------------ backslash / '@' authorities
+// URL texts whose authority mixes backslashes and '@' signs in every relative order and
+// multiplicity, for special and non-special schemes, with and without credentials and ports.
+const BA_SPECIAL: &[&str] = &["http", "https", "ws", "wss", "http", "https", "ws", "wss", "HTTPS", "Ws", "ftp"];
+const BA_NONSPECIAL: &[&str] = &["foo", "chrome-extension", "a+b.c-d", "blob", "httpx"];
+const BA_SLASHES: &[&str] = &["//", "//", "//", "//", "//", "\\\\", "/\\", "\\/", "/", "\\", "", "///", "\\\\\\", "//\\"];
+const BA_NAMES: &[&str] = &[
+    "example.com", "sub.example.com", "ads.net", "www.ads.net", "foo.com", "x.com", "a.b.example.co.uk", "evil.org", "host", "other",
+    "a", "b", "c", "user", "http", "https", "ws", "127.0.0.1", "co.uk", "example.net", "track.net", "é.com", "EXAMPLE.com", "[::1]",
+];
+const BA_CREDS: &[&str] = &["user", "user:pw", ":pw", "user:", "u:p:q", "http", "https:", "example.com", "ads.net:80", "x.com:pw", ""];
+const BA_PORTS: &[&str] = &["", "", "", ":80", ":8080", ":", ":443"];
+const BA_TAILS: &[&str] = &[
+    "", "", "/", "/path", "\\path", "/a\\b@c", "/x@y.com/z", "?q=a@b.com", "?u=\\\\evil.org", "#f@g\\h", "/ad.js", "\\@other", "/@x.com", "\\\\x.com/y", "?\\@x.com",
+];
+
+fn ba_name(r: &mut Rng) -> String {
+    r.pick(BA_NAMES).to_string()
+}
+
+/// One authority text. Half of them instances of the named shapes (`\@h`, `@\h`, `user\@host`,
+/// `host\@other`, `a@b@c`, `a\b@c`, backslash after the host / instead of '/'), half random
+/// sequences over {name, '@', '\', ':port', credentials}.
+fn gen_bs_at_authority(r: &mut Rng) -> String {
+    if r.chance(1, 2) {
+        let (a, mut b, mut c) = (ba_name(r), ba_name(r), ba_name(r));
+        // related names: a parent / child domain of the first name among the others
+        if r.chance(1, 3) {
+            let rel = match (r.below(3), a.split_once('.')) {
+                (0, Some((_, parent))) if parent.contains('.') => parent.to_string(),
+                (1, _) => format!("www.{}", a),
+                _ => format!("sub.{}", a),
+            };
+            if r.chance(1, 2) { b = rel } else { c = rel }
+        }
+        let (u, p) = (r.pick(BA_CREDS), r.pick(BA_PORTS));
+        match r.below(24) {
+            0 => format!("\\@{}", a),
+            1 => format!("@\\{}", a),
+            2 => format!("{}\\@{}", u, a),
+            3 => format!("{}{}\\@{}", a, p, b),
+            4 => format!("{}@{}@{}", a, b, c),
+            5 => format!("{}\\{}@{}", a, b, c),
+            6 => format!("{}{}\\", a, p),
+            7 => format!("{}{}\\{}", a, p, b),
+            8 => format!("{}@{}{}\\@{}", u, a, p, b),
+            9 => format!("{}@{}{}\\{}", u, a, p, b),
+            10 => format!("{}@", a),
+            11 => format!("@{}{}", a, p),
+            12 => format!("@@{}", a),
+            13 => format!("{}@@{}{}", u, a, p),
+            14 => format!("{}\\\\@{}", a, b),
+            15 => format!("\\\\@{}", a),
+            16 => format!("{}@{}@{}\\{}", u, a, b, c),
+            17 => format!("{}\\{}\\{}@{}", a, b, c, u),
+            18 => format!("{}@\\{}", a, b),
+            19 => format!("{}@{}\\", u, a),
+            20 => format!("{}@{}{}", u, a, p),
+            21 => format!("{}\\:{}@{}", a, b, c),
+            22 => format!("{}:{}\\@{}", a, b, c),
+            _ => format!("{}@{}:{}@{}\\@{}", a, b, u, c, a),
+        }
+    } else {
+        let n = r.range(1, 6);
+        let mut s = String::new();
+        for _ in 0..n {
+            match r.below(10) {
+                0..=3 => s.push_str(&ba_name(r)),
+                4 | 5 => s.push('@'),
+                6 | 7 => s.push('\\'),
+                8 => s.push_str(r.pick(&[":80", ":", ":8080", ":pw"])),
+                _ => s.push_str(r.pick(BA_CREDS)),
+            }
+        }
+        s
+    }
+}
+
+fn gen_bs_at_url(r: &mut Rng) -> String {
+    let special = r.chance(3, 4);
+    let mut s = String::new();
+    if r.chance(1, 10) {
+        s.push_str(r.pick(WS));
+    }
+    s.push_str(if special { r.pick(BA_SPECIAL) } else { r.pick(BA_NONSPECIAL) });
+    s.push(':');
+    // a non-special scheme has an authority only after "//": keep that the common case
+    s.push_str(if !special && r.chance(3, 4) { "//" } else { r.pick(BA_SLASHES) });
+    s.push_str(&gen_bs_at_authority(r));
+    s.push_str(r.pick(BA_TAILS));
+    s
+}
+
+/// Text between the scheme's slashes and the first of / ? # — for a special scheme this is wider
+/// than the authority when it contains a backslash. None: no scheme.
+fn wide_authority(url: &str) -> Option<&str> {
+    let t = url.trim_matches(|c: char| c <= ' ');
+    let colon = t.find(':')?;
+    let rest = t[colon + 1..].trim_start_matches(|c| c == '/' || c == '\\');
+    Some(&rest[..rest.find(|c| c == '/' || c == '?' || c == '#').unwrap_or(rest.len())])
+}
+
+/// Relative order / multiplicity of '\' and '@' in the wide authority (generator statistics).
+fn bs_at_shape(url: &str) -> &'static str {
+    let w = wide_authority(url).unwrap_or("");
+    let (nb, na) = (w.matches('\\').count(), w.matches('@').count());
+    match (nb, na) {
+        (0, 0) => "bsat_neither",
+        (0, 1) => "bsat_one_at_only",
+        (0, _) => "bsat_several_at_only",
+        (_, 0) => "bsat_backslash_only",
+        _ => {
+            let (fb, fa, la) = (w.find('\\').unwrap(), w.find('@').unwrap(), w.rfind('@').unwrap());
+            if fb < fa { "bsat_backslash_before_every_at" } else if fb > la { "bsat_backslash_after_every_at" } else { "bsat_backslash_between_ats" }
+        }
+    }
+}
+
+/// Source URLs for the backslash/'@' inputs: the expected host, one of the other names of the
+/// authority text (credentials, text after the backslash), or unrelated.
+fn gen_bs_at_source(r: &mut Rng, url: &str) -> String {
+    let names = host_like_names(wide_authority(url).unwrap_or(""));
+    match r.below(8) {
+        0 | 1 | 2 => match expected_host(url) {
+            Some(h) => format!("https://{}{}/page", r.pick(&["", "www.", "sub."]), h),
+            None => "https://example.com/".to_string(),
+        },
+        3 | 4 | 5 if !names.is_empty() => format!("https://{}/", names[r.below(names.len())]),
+        6 => String::new(),
+        _ => gen_source(r, url),
+    }
+}
+
+/// Lower-case LDH names (labels of letters, digits, '-', joined by dots) occurring in `text`.
+fn host_like_names(text: &str) -> Vec<String> {
+    let mut v: Vec<String> = vec![];
+    for n in text.split(|c: char| !(c.is_ascii_lowercase() || c.is_ascii_digit() || c == '.' || c == '-')) {
+        if ldh_lower(n) && !v.iter().any(|x| x == n) {
+            v.push(n.to_string());
+        }
+    }
+    v
+}
+fn ldh_lower(h: &str) -> bool {
+    !h.is_empty()
+        && h.len() <= 60
+        && h.split('.').all(|l| !l.is_empty() && !l.starts_with('-') && !l.ends_with('-') && l.chars().all(|c| c.is_ascii_lowercase() || c.is_ascii_digit() || c == '-'))
+}
+
+/// `||x^` applies to a request exactly when the scheme is one the engine matches and `x` (a leading
+/// "www." is not part of a hostname-anchored rule) is the request host or a parent domain of it.
+fn host_rule_expected(request_host: &str, x: &str, supported: bool) -> bool {
+    let x = x.trim_start_matches("www.");
+    supported && !x.is_empty() && (request_host == x || request_host.ends_with(&format!(".{}", x)))
+}
+
 const SOUP: &[&str] = &[
     ":", "/", "\\", "@", "?", "#", "[", "]", ".", "%", "\t", "\n", "\r", " ", "a", "Z", "é", "例", "😀", "\u{0}", "\u{7f}",
     "／", "：", "http", "ws", "//", "://", "x.com", "%41", "-", "+", "0", "\u{80}", "\u{7ff}", "\u{800}", "\u{ffff}",
@@ -405,8 +565,17 @@ fn req_fields(r: &Request) -> Value {
            "hashes": r.source_hostname_hashes, "lower": adblock::request::verif::url_lower_cased(r), "tokens": r.get_tokens()})
 }
 
+/// Counters of the `||host^` engine probes of one oracle call.
+#[derive(Default)]
+struct Probes {
+    host_rule: u64,
+    host_rule_matched: u64,
+    decoy_rule: u64,
+    decoy_rule_matched: u64,
+}
+
 /// All oracle checks on one (url, source, type); returns the list of (class, what).
-fn oracle(e: &Engine, url: &str, src: &str, ty: &str) -> Vec<(Option<&'static str>, String)> {
+fn oracle(e: &Engine, url: &str, src: &str, ty: &str, probes: &mut Probes) -> Vec<(Option<&'static str>, String)> {
     let mut fails: Vec<(Option<&'static str>, String)> = vec![];
     let (u2, s2, t2) = (url.to_string(), src.to_string(), ty.to_string());
     let built = match catch(move || Request::new(&u2, &s2, &t2)) {
@@ -437,6 +606,38 @@ fn oracle(e: &Engine, url: &str, src: &str, ty: &str) -> Vec<(Option<&'static st
     }
     if !req.hostname.is_ascii() {
         fails.push((class, format!("hostname {:?} is not ASCII", req.hostname)));
+    }
+    // the engine's answer for `||x^`, x = the host of the URL text (must match when the scheme is
+    // matched at all) and x = every other host-like name standing between the slashes and the first
+    // of / ? # (credentials, text after a backslash: must not match unless x is a parent domain)
+    if let (Some(p), Some(h)) = (&parts, &expect) {
+        if ldh_lower(h) {
+            let supported = ["http", "https", "ws", "wss"].contains(&p.scheme.as_str());
+            let mut names = vec![h.clone()];
+            for n in host_like_names(wide_authority(url).unwrap_or("")) {
+                if names.len() < 5 && !names.contains(&n) {
+                    names.push(n);
+                }
+            }
+            for (k, x) in names.iter().enumerate() {
+                let line = format!("||{}^", x);
+                if net::parse_net(&line).is_none() {
+                    continue;
+                }
+                let want = host_rule_expected(h, x, supported);
+                // asked as a script request: the request type under test may be one no rule applies to (csp_report)
+                let (l2, u2, s2) = (line.clone(), url.to_string(), src.to_string());
+                match catch(move || Request::new(&u2, &s2, "script").map(|r2| Engine::from_rules([&l2], Default::default()).check_network_request(&r2).matched).unwrap_or(false)) {
+                    Err(m) => fails.push((None, format!("engine with {:?} panicked: {}", line, m))),
+                    Ok(got) => {
+                        if k == 0 { probes.host_rule += 1; probes.host_rule_matched += got as u64 } else { probes.decoy_rule += 1; probes.decoy_rule_matched += got as u64 }
+                        if got != want {
+                            fails.push((None, format!("engine with the single rule {:?}: matched={} on {:?} (reported hostname {:?}); the host of the URL text is {:?}, scheme {:?}: expected matched={}", line, got, req.url, req.hostname, h, p.scheme, want)));
+                        }
+                    }
+                }
+            }
+        }
     }
     // the url crate as second opinion
     if let Some(p) = &parts {
@@ -475,9 +676,12 @@ fn oracle(e: &Engine, url: &str, src: &str, ty: &str) -> Vec<(Option<&'static st
     };
     let src_expect: Option<String> = expected_host(src);
     let sclass: Option<&'static str> = None;
+    // registrable domain of the host of the URL text (of the reported host when the text has none:
+    // already reported above) against the registrable domain of the source's host
+    let req_host_ref: &str = expect.as_deref().unwrap_or(&req.hostname);
     let want_tp = match &src_expect {
         None => true,
-        Some(sh) => domain_of(sh) != domain_of(&req.hostname),
+        Some(sh) => domain_of(sh) != domain_of(req_host_ref),
     };
     if req.is_third_party != want_tp {
         fails.push((class.or(sclass), format!("is_third_party={} but source host {:?} / request host {:?}", req.is_third_party, src_expect, req.hostname)));
@@ -535,7 +739,9 @@ fn main() {
         if let Ok(r) = Request::new(url, src, ty) {
             println!("verdict={}", verdict(&e, &r));
         }
-        let mut fails = oracle(&e, url, src, ty);
+        let mut probes = Probes::default();
+        let mut fails = oracle(&e, url, src, ty, &mut probes);
+        println!("||host^ probes: host rule {} (matched {}), other names of the authority text {} (matched {})", probes.host_rule, probes.host_rule_matched, probes.decoy_rule, probes.decoy_rule_matched);
         if rp["kind"] == "preparsed" {
             let (h, sh, tp) = (rp["hostname"].as_str().unwrap_or("").to_string(), rp["source_hostname"].as_str().unwrap_or("").to_string(), rp["third_party"].as_bool().unwrap_or(false));
             let (u, t) = (url.to_string(), ty.to_string());
@@ -555,22 +761,55 @@ fn main() {
     let mut r = Rng::new(a.seed);
     let mut cs = Cases::new(&a.out, "Generated C12_Model");
     let mut sm = Summary::default();
-    sm.rule = "structured URLs (24 scheme spellings incl. ws/wss/ftp/data/about/blob/none, 12 separators, userinfo, ports, IPv4/IPv6 literals, upper-case, percent-escaped, IDN, trailing-dot, empty and control-character hosts, backslashes, surrounding whitespace/controls) and a malformed character soup, each with a related/unrelated/absent/malformed source URL and a request type; three case kinds per input: scanner tuple, Request::new fields, Request::preparsed fields; non-trivial = the URL has an authority and (scan case) parses, (new case) yields a request, (preparsed case) the URL contains ':' or a source hostname with a dot".into();
-    let n = 900 * a.scale;
+    sm.rule = "every fourth input: an authority mixing backslashes and '@' signs in every relative order and multiplicity (\\@h, @\\h, user\\@host, host\\@other/path, a@b@c, a\\b@c, backslash after the host / instead of '/', random sequences over name/@/\\/:port/credentials) after special (http, https, ws, wss, ftp, mixed case) and non-special schemes with 14 slash/backslash separators, with and without credentials and ports, the source drawn from the expected host / the other names of the authority text; the other inputs: structured URLs (24 scheme spellings incl. ws/wss/ftp/data/about/blob/none, 12 separators, userinfo, ports, IPv4/IPv6 literals, upper-case, percent-escaped, IDN, trailing-dot, empty and control-character hosts, backslashes, surrounding whitespace/controls) and a malformed character soup, each with a related/unrelated/absent/malformed source URL and a request type; three case kinds per input: scanner tuple, Request::new fields, Request::preparsed fields; non-trivial = the URL has an authority and (scan case) parses, (new case) yields a request, (preparsed case) the URL contains ':' or a source hostname with a dot. Oracle on every input: host from the WHATWG split of the URL text (authority ends at the first / ? # and, for special schemes, \\; credentials end at the last @), third-party from the registrable domains, and an engine holding the single rule ||x^ for x = that host and for every other host-like name of the authority text (matched iff the scheme is http/https/ws/wss and x is the host or a parent domain)".into();
+    // 900 inputs of the general grammar / soup interleaved with 300 backslash-and-'@' authorities
+    let n = 1200 * a.scale;
+    let mut probes = Probes::default();
+    // the shapes named in the property text, once each, then generated ones
+    let mut fixed: Vec<&str> = vec![
+        "http://\\@host/", "http://@\\host/", "https://user\\@host/", "https://host\\@other/path", "ws://a@b@c/", "wss://a\\b@c/",
+        "http://example.com\\", "https://example.com\\ad.js", "http:\\\\example.com\\ad.js", "foo://user\\@host/", "foo://host\\@other/path", "foo://a\\b@c:80/x",
+        "https://user:pw@ads.net:8080\\@example.com/ad.js", "https://example.com@ads.net\\@example.com/",
+    ];
+    fixed.reverse();
+    let mut old_i = 0usize;
     for i in 0..n {
-        let (url, src) = if i % 6 == 5 {
-            let u = gen_soup(&mut r);
-            let s = if r.chance(1, 2) { gen_soup(&mut r) } else { gen_source(&mut r, &u) };
+        let bs_at = i % 4 == 3;
+        let (url, src) = if bs_at {
+            let u = match fixed.pop() { Some(f) => f.to_string(), None => gen_bs_at_url(&mut r) };
+            let s = gen_bs_at_source(&mut r, &u);
             (u, s)
         } else {
-            let u = gen_url(&mut r).s;
-            let s = gen_source(&mut r, &u);
-            (u, s)
+            old_i += 1;
+            if old_i % 6 == 0 {
+                let u = gen_soup(&mut r);
+                let s = if r.chance(1, 2) { gen_soup(&mut r) } else { gen_source(&mut r, &u) };
+                (u, s)
+            } else {
+                let u = gen_url(&mut r).s;
+                let s = gen_source(&mut r, &u);
+                (u, s)
+            }
         };
         let ty = gen_type(&mut r);
+        if bs_at {
+            cs.stat("bsat_url");
+            cs.stat(bs_at_shape(&url));
+            match ref_parts(&url) {
+                Some(p) if p.special => cs.stat("bsat_special_scheme"),
+                Some(_) => cs.stat("bsat_non_special_scheme_with_authority"),
+                None => cs.stat("bsat_no_authority"),
+            }
+            if let Some(p) = ref_parts(&url) {
+                if p.authority.contains('@') { cs.stat("bsat_with_credentials") }
+                if p.authority.rsplit('@').next().map_or(false, |hp| hp.contains(':')) { cs.stat("bsat_with_port") }
+                if wide_authority(&url).map_or(false, |w| w.len() > p.authority.len()) { cs.stat("bsat_backslash_ends_authority") }
+            }
+            cs.stat(if expected_host(&url).is_some() { "bsat_expected_host" } else { "bsat_expected_rejection" });
+        }
         // ---------------- oracle
         sm.oracle_evaluations += 1;
-        for (c, w) in oracle(&e, &url, &src, &ty) {
+        for (c, w) in oracle(&e, &url, &src, &ty, &mut probes) {
             sm.failure(c, &w, json!({"kind": "new", "url": url, "source": src, "type": ty}));
         }
         // ---------------- correspondence: scanner
@@ -633,6 +872,11 @@ fn main() {
             }
         }
     }
+    cs.stats.insert("host_rule_probes".into(), probes.host_rule);
+    cs.stats.insert("host_rule_probes_matched".into(), probes.host_rule_matched);
+    cs.stats.insert("other_name_rule_probes".into(), probes.decoy_rule);
+    cs.stats.insert("other_name_rule_probes_matched".into(), probes.decoy_rule_matched);
+    sm.oracle_evaluations += probes.host_rule + probes.decoy_rule;
     sm.extra.insert("observation".into(), json!("ASCII host case is not normalised: Request::new(\"http://EXAMPLE.com/x.js\", \"http://example.com/\", \"script\") has hostname \"EXAMPLE.com\", is_third_party = true, and ||example.com^ does not match it; not counted as a C12 failure (the property is stated on the strings the crate reports)"));
     cs.finish();
     sm.write(&a.out, &cs);
